@@ -423,6 +423,11 @@ var propC14 = &dprop{ID: "C14", Sub: "faults", Tag: "C14",
 var propC15 = &dprop{ID: "C15", Sub: "bound", Tag: "C15",
 	Rule: "same controlled scheduler with wide graphs (edge density 0-30%) x SetMaxParallel(m) for m in 1..n+1 / serial mode x buffered output in half of the cases (each attempt writes a fragment to dag.Stdout before blocking and one to dag.Stderr after its release, so fragments of concurrently running tasks interleave unless buffered per attempt); at every entry the number of executing task functions must not exceed the limit; the sink must hold whole per-attempt blocks; non-trivial = the limit was binding (more ready tasks than slots) or >=2 tasks wrote concurrently; distinct by (script, mode, limit, history)",
 	Gen: func(t *rapid.T) *DagCase {
+		if chance(t, "skipheavy", 30) {
+			// slots must be accounted for correctly when dependents are skipped through ErrorSkipParents while a small
+			// limit is binding (the regression run of round 7 showed that 2 % skips made this a matter of the seed)
+			return genDagCase(t, dagCfg{MaxN: 8, Density: []int{10, 25, 40}, ErrPct: 3, SkipPct: 30, RetryPct: 10, Modes: []string{"max", "max", "max", "serial"}, CancelPct: 5, Buffered: 20, Templates: true})
+		}
 		return genDagCase(t, dagCfg{MaxN: 8, Density: []int{0, 10, 30}, ErrPct: 5, SkipPct: 2, RetryPct: 15, Modes: []string{"max", "max", "max", "serial", "parallel"}, CancelPct: 15, Buffered: 50})
 	},
 	NT: func(c *DagCase, r *Result) bool { return r.BoundBinding || (c.Buffered && r.Overlap) },
